@@ -6,6 +6,7 @@ partial def lineLoop {σ : Type} (step : σ → String → σ × String) (h out 
   if line.isEmpty then return ()
   let (st', o) := step st (line.trimAscii.toString)
   out.putStrLn o
+  out.flush
   lineLoop step h out st'
 
 def runDriver {σ : Type} (init : σ) (step : σ → String → σ × String) : IO Unit := do
